@@ -241,6 +241,26 @@ impl BatchSender {
     }
 }
 
+/// Verification hooks (feature `verif-hooks`, OFF by default): observe / seed the
+/// private queue state from the external harness crates.
+#[cfg(feature = "verif-hooks")]
+impl BatchSender {
+    pub fn vh_last_flush_ms(&self) -> u64 {
+        self.last_flush_ms
+    }
+    pub fn vh_set_last_flush_ms(&mut self, v: u64) {
+        self.last_flush_ms = v;
+    }
+    /// (queue, sequences, queue_times) lengths - must always agree.
+    pub fn vh_lens(&self) -> (usize, usize, usize) {
+        (
+            self.queue.len(),
+            self.sequences.len(),
+            self.queue_times.len(),
+        )
+    }
+}
+
 #[cfg(test)]
 mod tests {
     use super::*;
